@@ -1063,6 +1063,27 @@ impl Gen {
         for e in raw.into_iter().rev() {
             self.pending_patches.push(e);
         }
+        // one LP / trader flow in ten of two to five transactions is sent as ONE transaction (open + arrays + deposit, withdraw
+        // + collect + close, two swaps in a row ...): later instructions run on what the earlier ones left, and what an earlier
+        // instruction emptied still exists with zero lamports until the transaction ends
+        let flow = if matches!(actor.role, Role::Lp | Role::Trader) && (2..=5).contains(&flow.len()) && !HF_RUN.with(|c| c.get()) && FORCE_ARRAY_KIND.with(|c| c.get()).is_none() && self.rng.chance(1, 10) {
+            let tags: Vec<String> = flow.iter().map(|(_, t)| t.clone()).collect();
+            let mut ixs: Vec<rt::Ix> = flow.into_iter().flat_map(|(t, _)| t.ixs).collect();
+            // (an account is writable / a signer for the whole transaction if any of its instructions says so: the flags are
+            // made explicit in every instruction, so that an instruction replayed alone sees what it saw in the transaction)
+            let writable: std::collections::BTreeSet<Pubkey> = ixs.iter().flat_map(|i| i.accounts.iter()).filter(|m| m.is_writable).map(|m| m.pubkey).collect();
+            let signers: std::collections::BTreeSet<Pubkey> = ixs.iter().flat_map(|i| i.accounts.iter()).filter(|m| m.is_signer).map(|m| m.pubkey).collect();
+            for i in ixs.iter_mut() {
+                for m in i.accounts.iter_mut() {
+                    m.is_writable |= writable.contains(&m.pubkey);
+                    m.is_signer |= signers.contains(&m.pubkey);
+                }
+            }
+            self.stats.hit("flow_sent_as_one_transaction");
+            vec![(Tx { ixs }, format!("{} (one transaction)", tags.join(" + ")))]
+        } else {
+            flow
+        };
         if !flow.is_empty() {
             self.send_flow(id, flow);
         }
